@@ -77,6 +77,15 @@ func (a *netRecv) Receive(c *actor.Context) {
 			c.Respond(&remote.TestMessage{Data: []byte("rep-" + d[4:])})
 			return
 		}
+		if strings.HasPrefix(d, "slowreq-") {
+			// answered, but late (400 ms): the requester has given up by then
+			sp, eng := c.Sender(), c.Engine()
+			go func() {
+				time.Sleep(400 * time.Millisecond)
+				eng.Send(sp, &remote.TestMessage{Data: []byte("rep-" + d)})
+			}()
+			return
+		}
 		a.mu.Lock()
 		a.got = append(a.got, netGot{msg: m, sender: pidStr(c.Sender())})
 		a.mu.Unlock()
